@@ -14,6 +14,17 @@ BASE = {
 }
 
 
+class InlineSecondAnswerMonitor(monitors.Monitor):
+    """The second of two answers submitted inline by handle_request must fail with the not-routable error."""
+
+    def step(self):
+        vs = []
+        for rec in self.new_records():
+            if rec[1] == "inline_second_answer" and rec[2] != "NotRoutable":
+                vs.append((f"answer-route:second-inline-answer-not-refused-with-NotRoutable:{rec[2]}", f"second send_answer inside handle_request: {rec[2]}"))
+        return vs
+
+
 def models(tier):
     out = []
     # two peers connected; equal hop-by-hop ids on both connections; loss / DPR / reconnection between request and answer
@@ -53,6 +64,14 @@ def models(tier):
     # connection only, end-to-end ids per origin host only); both are pending at the application at the same time
     alphap = [("m", 0, "rx1:a:0:1"), ("m", 1, "rx1:b:0:1"), ("m", 1, "rx1:b:0:2"), ("ans", 0), ("ans", 1), ("ans", 2), ("ans2", 0), ("eof", 0), ("eof", 1), ("m", 1, "dpr")]
     out.append(monitors.ScenarioModel("two-peers-equal-identifier-pairs", BASE, alphap, [monitors.AnswerRoutePairMonitor, monitors.AnswerMonitor], max_socks=2,
+                                      prelude=[("accept",), ("m", 0, "cer_p0"), ("accept",), ("m", 1, "cer_p1")]))
+    # the application answers from within handle_request (on the delivering connection's reader thread) and submits a second answer there
+    import copy as _copy
+    inl = _copy.deepcopy(BASE)
+    inl["apps"][0]["behaviour"] = "answer_twice"
+    out.append(monitors.ScenarioModel("inline-answer-submitted-twice", inl,
+                                      [("m", 0, "rh:1"), ("m", 1, "rh:1"), ("m", 0, "rh:2"), ("b", 0, "rh:1", "rh:2"), ("eof", 0), ("m", 1, "dpr")],
+                                      MONS + [InlineSecondAnswerMonitor], max_socks=2,
                                       prelude=[("accept",), ("m", 0, "cer_p0"), ("accept",), ("m", 1, "cer_p1")]))
     # a second deterministic scheduling policy (the I/O thread runs only when nothing else can)
     if True:
